@@ -4568,6 +4568,54 @@ func ruleTxCompatible(c *Ctx) {
 			})
 			return true
 		})
+		// the other pair the scratch pool resolves by replacement instead of failing: two responses to one oracle request
+		oracleOK := false
+		ast.Inspect(fd.Decl.Body, func(n ast.Node) bool {
+			rs, ok := n.(*ast.RangeStmt)
+			if !ok || !f.Mentions(rs.X, nil)[fldBlockTxs] {
+				return true
+			}
+			ast.Inspect(rs.Body, func(x ast.Node) bool {
+				is, ok := x.(*ast.IfStmt)
+				if !ok || len(is.Body.List) == 0 {
+					return true
+				}
+				lookup := false
+				chk := func(e ast.Node) {
+					ast.Inspect(e, func(z ast.Node) bool {
+						if ix, ok := z.(*ast.IndexExpr); ok {
+							if _, isMap := info.TypeOf(ix.X).Underlying().(*types.Map); isMap {
+								for sname := range f.Mentions(ix.Index, nil) {
+									if strings.HasSuffix(sname, "pkg/core/transaction#ID") || strings.Contains(sname, "transaction.OracleResponse") {
+										lookup = true
+									}
+								}
+							}
+						}
+						return true
+					})
+				}
+				chk(is.Cond)
+				if is.Init != nil {
+					chk(is.Init)
+				}
+				if lookup {
+					if r, ok := is.Body.List[len(is.Body.List)-1].(*ast.ReturnStmt); ok && len(r.Results) == 1 {
+						if v, isB := boolConst(info, r.Results[0]); (isB && !v) || (!isB && !isNilIdent(info, r.Results[0])) {
+							oracleOK = true
+						}
+					}
+				}
+				return true
+			})
+			return true
+		})
+		okey := "tx-compatible.oracle." + tg.fn[2]
+		if oracleOK {
+			c.OK(okey, c.P.Pos(fd.Decl.Pos()), "a second response to the same oracle request inside one block is rejected by a check of its own")
+		} else {
+			c.Fail(okey, c.P.Pos(fd.Decl.Pos()), fmt.Sprintf("%s.%s %s without checking that no two transactions of the block answer the same oracle request: the scratch pool it uses replaces the first response by the one that pays more instead of failing, both are executed and the requesting contract's callback runs twice for one request", tg.fn[1], tg.fn[2], tg.role))
+		}
 		if found {
 			c.OK(key, c.P.Pos(pos), fmt.Sprintf("before it %s, %s looks every Conflicts hash of the block's transactions up among the block's own hashes and rejects on a hit", tg.role, tg.fn[2]))
 		} else {
